@@ -134,6 +134,12 @@ pub mod hash_table {
 #[cfg(feature = "verif-hooks")]
 pub mod verif {
     pub use crate::raw::verif::*;
+
+    /// Hooks for the rayon producers.
+    #[cfg(feature = "rayon")]
+    pub mod rayon {
+        pub use crate::external_trait_impls::rayon::raw::verif::*;
+    }
 }
 
 pub use crate::map::HashMap;
